@@ -1,0 +1,25 @@
+//! Verification hooks (only compiled with `--cfg jubako_verif`).
+//!
+//! A single global callback receives named schedule points with two values. The verification
+//! harness uses it both to record the history of a run and to perturb the schedule (sleep/yield
+//! inside the callback). Without a callback installed, a hook point is a relaxed load.
+
+use std::sync::{Arc, RwLock};
+
+pub type Hook = Arc<dyn Fn(&'static str, u64, u64) + Send + Sync>;
+
+static HOOK: RwLock<Option<Hook>> = RwLock::new(None);
+
+/// Install (or remove) the global hook.
+pub fn set_hook(hook: Option<Hook>) {
+    *HOOK.write().unwrap() = hook;
+}
+
+/// A schedule point.
+#[inline]
+pub fn point(name: &'static str, a: u64, b: u64) {
+    let hook = HOOK.read().unwrap().clone();
+    if let Some(hook) = hook {
+        hook(name, a, b);
+    }
+}
